@@ -228,7 +228,9 @@ fn inbound_after_prefix_case(prefix: usize, total: usize, sink: &mut Sink<'_>) {
     }
     // the small frame is below the limit on any reading
     let first_ok = results.first() == Some(&Got::Ok(ea));
-    let both_fit = prefix + total < LIMIT;
+    // the frame in front was handed out before the big one needs the room: the big one is judged by
+    // its own size, like a lone frame
+    let both_fit = total < LIMIT;
     let second = results.get(1);
     let second_ok = second == Some(&Got::Ok(eb));
     let second_refused = second == Some(&Got::Overflow) || (!first_ok && results.first() == Some(&Got::Overflow));
